@@ -237,10 +237,12 @@ Definition preinit_of (fns : list lkfn) (ctors : list string) : bool := existsb 
 
 (** optional guards: a libc function that takes a libc-internal lock, called with the repository mutex held and nothing else
     (the fork handlers hold that mutex across fork(), so no thread is inside the libc function on the library's behalf at that instant) *)
-Definition libc_guards : list (string * string) := [("snoopy_tsrm_localtime_r", "localtime_r")].
+Definition libc_guards : list (string * list string) :=
+  [("snoopy_tsrm_localtime_r", ["localtime_r"]); ("snoopy_tsrm_strftime", ["strftime"]);
+   ("snoopy_tsrm_getutline", ["setutent"; "getutline_r"; "endutent"])].
 Definition is_libc_guard (fns : list lkfn) (name : string) : bool :=
   match find (fun g => String.eqb (fst g) name) libc_guards, find_fn fns name with
-  | Some (_, libc), Some f => lks_eqb (norm (lk_body f)) [KLock M; KExt libc; KUnlock M; KReturn]
+  | Some (_, libc), Some f => lks_eqb (norm (lk_body f)) ([KLock M] ++ map KExt libc ++ [KUnlock M; KReturn])
   | _, _ => false
   end.
 Definition guard_names (fns : list lkfn) : list string := filter (is_libc_guard fns) (map fst libc_guards).
@@ -415,7 +417,7 @@ Fixpoint lin (fuel : nat) (fns : list lkfn) (args : list karg) (path : list bool
       | KExt _ | KLabel _ | KMutexInit _ | KMutexType _ _ | KAtfork _ _ _ => continue_with [] path
       | KCall f cargs =>
         match find_fn fns f with
-        | Some fn => match lin fuel' fns (map (subst_arg args) cargs) path (lk_body fn) with
+        | Some fn => match lin fuel' fns (map (subst_arg args) cargs) path (norm (lk_body fn)) with
                      | Some (ls, p', _) => continue_with ls p'
                      | None => None
                      end
@@ -444,7 +446,7 @@ Fixpoint lin (fuel : nat) (fns : list lkfn) (args : list karg) (path : list bool
 
 Definition lin_fn (fns : list lkfn) (name : string) (path : list bool) : option (list label) :=
   match find_fn fns name with
-  | Some f => match lin 200 fns (repeat KOpaque (lk_nparams f)) path (lk_body f) with
+  | Some f => match lin 200 fns (repeat KOpaque (lk_nparams f)) path (norm (lk_body f)) with
               | Some (ls, [], _) => Some ls
               | _ => None
               end
@@ -538,6 +540,7 @@ Section Classify.
   Variable fns : list lkfn.
   Variable globals : list gobj.
   Variable reach : list string.
+  Variable inlined : list string.      (* static helpers of tsrm.c spliced into their pinned callers by the translator *)
 
   Definition once_fn : string := "snoopy_tsrm_init".
   Definition single_thread_fns : list string :=      (* the atfork child handler runs in a process that has one thread *)
@@ -564,7 +567,10 @@ Section Classify.
     let eff := eff_accs g in
     let writes := filter (fun a => is_write a || (negb (String.eqb (g_name g) "") && existsb (fun p => true) (pointers_to g) && is_pointee_access a && pointee_written a)) eff in
     if g_const g then Some PImmutable
-    else if g_tls g then Some PPerThread
+    (* a thread-local object is harmless only while no wrapped call writes it: per-thread state that a call leaves behind outlives the call
+       ("once all calls have returned the library holds no per-thread state") *)
+    else if g_tls g && forallb (fun a => negb (str_in (a_fn a) reach)) (filter is_write eff) then Some PPerThread
+    else if g_tls g then None
     else if forallb (fun a => String.eqb (a_kind a) "arg"
                               && (callee_in (a_detail a) sync_callees
                                   || (callee_in (a_detail a) sync_init_callees && (String.eqb (a_fn a) once_fn || str_in (a_fn a) single_thread_fns)))) eff
@@ -575,7 +581,7 @@ Section Classify.
          | _ =>
            if forallb (fun a => negb (str_in (a_fn a) reach)) writes then Some PBeforeInit
            else if forallb in_tsrm eff && existsb (fun p => String.eqb (g_name p) R) (pointers_to g) && discipline_ok fns
-                   && forallb (fun a => str_in (a_fn a) (map (fun e => fst (fst e)) expected_core) || str_in (a_fn a) single_thread_fns) eff
+                   && forallb (fun a => str_in (a_fn a) (map (fun e => fst (fst e)) expected_core) || str_in (a_fn a) single_thread_fns || str_in (a_fn a) inlined) eff
                 then Some PMutex
            else None
          end.
@@ -600,11 +606,11 @@ Proof.
   induction l as [|a l IH]; simpl; intros H x Hin; [contradiction|].
   apply app_eq_nil in H as [H1 H2]. destruct Hin as [<-|Hin]; [assumption|now apply IH].
 Qed.
-Lemma globals_ok_all fns gl reach :
-  globals_ok fns gl reach = true -> forall g, In g gl -> exists p, classify fns gl reach g = Some p.
+Lemma globals_ok_all fns gl reach inl :
+  globals_ok fns gl reach inl = true -> forall g, In g gl -> exists p, classify fns gl reach inl g = Some p.
 Proof.
   unfold globals_ok, unprotected. intros H g Hin.
-  destruct (classify fns gl reach g) as [p|] eqn:E; [eauto|]. exfalso.
+  destruct (classify fns gl reach inl g) as [p|] eqn:E; [eauto|]. exfalso.
   destruct (flat_map _ gl) eqn:F; [|discriminate].
   pose proof (flat_map_nil_inv _ _ F g Hin) as Hg. cbv beta in Hg. rewrite E in Hg. discriminate.
 Qed.
@@ -639,8 +645,9 @@ Definition locking_calls : list string :=
   ["pthread_mutex_lock"; "pthread_mutex_trylock"; "pthread_mutex_timedlock"; "pthread_mutex_clocklock"; "pthread_rwlock_rdlock"; "pthread_rwlock_wrlock";
    "pthread_rwlock_tryrdlock"; "pthread_rwlock_trywrlock"; "pthread_spin_lock"; "pthread_spin_trylock"; "pthread_cond_wait"; "pthread_cond_timedwait";
    "pthread_barrier_wait"; "sem_wait"; "sem_timedwait"; "mtx_lock"; "flock"; "lockf"; "flockfile"; "ftrylockfile"].
-Definition locking_confined (fns : list lkfn) (ctors : list string) (refs : list (string * list string)) : bool :=
-  forallb (fun e => negb (existsb (fun f => str_in f locking_calls) (snd e)) || str_in (fst e) (known_names fns ctors)) refs.
+(** [inlined]: file-local static helpers of tsrm.c whose bodies the translator spliced into their (pinned) callers *)
+Definition locking_confined (fns : list lkfn) (ctors inlined : list string) (refs : list (string * list string)) : bool :=
+  forallb (fun e => negb (existsb (fun f => str_in f locking_calls) (snd e)) || str_in (fst e) (known_names fns ctors) || str_in (fst e) inlined) refs.
 
 Lemma all_locks_covered_spec fns globals : all_locks_covered fns globals = true ->
   forall g, In g globals -> is_lock_object g = true -> g_name g = M /\ covered_locks fns = [M].
@@ -693,9 +700,13 @@ Proof.
   apply (in_map (fun f0 => (f ++ " -> " ++ f0)%string)) in Hf. rewrite E in Hf. contradiction.
 Qed.
 
-(** libc functions that are reentrant but take libc's timezone lock, which fork() does not reset: a wrapped call may reach them only through
-    a guard ([libc_guards]).  [tz_unguarded] lists the reachable callers that are not guards. *)
-Definition tz_lock_calls : list string := ["localtime_r"; "mktime"; "tzset"; "ctime_r"; "timelocal"; "localtime_rz"; "strptime"].
+(** libc functions that are reentrant but take a libc-internal lock which fork() does not reset (the timezone lock: localtime_r, mktime, tzset,
+    strftime for %s / %Z, ...; the utmp lock: setutent, getutline_r, endutent, ...): a wrapped call may reach them only through a guard
+    ([libc_guards]).  [tz_unguarded] lists the reachable callers that are not guards. *)
+Definition tz_lock_calls : list string :=
+  ["localtime_r"; "mktime"; "tzset"; "ctime_r"; "timelocal"; "localtime_rz"; "strptime"; "strftime"; "strftime_l"; "wcsftime";
+   "setutent"; "endutent"; "getutline_r"; "getutent_r"; "getutid_r"; "pututline"; "updwtmp"; "logwtmp"; "utmpname";
+   "setutxent"; "endutxent"; "getutxline"; "getutxent"; "getutxid"; "pututxline"].
 Definition tz_unguarded (fns : list lkfn) (refs : list (string * list string)) (reach : list string) : list string :=
   flat_map (fun e => if str_in (fst e) reach && existsb (fun f => str_in f tz_lock_calls) (snd e) && negb (str_in (fst e) (guard_names fns))
                      then [fst e] else []) refs.
